@@ -145,6 +145,20 @@ def window_rules(prog, res, f):
                 tests.append(b)
     if not tests:
         raise AnalysisBroken("window-complete test not found in %s" % f.name)
+    # names are taken from the code: the counter is what the window test
+    # compares with filter_window_frames, the accumulator pointer is the target
+    # of the channel_write_map that is used as a VideoFrame
+    c0 = ir.strip(tests[0].cond_node())
+    cnt_ap = ir.ap(c0["l"]) if not any(y.get("k") == "mem" and y["f"] == "filter_window_frames" for y in ir.walk(c0["l"])) else ir.ap(c0["r"])
+    acc_ap = None
+    for b_, i_, s_ in f.all_stmts():
+        if any(c.get("fn") == "channel_write_map" for c in ir.calls_in(s_)) and any(x.get("k") == "cast" and x.get("r") == "VideoFrame" for x in ir.walk(s_)):
+            for lv, op, rhs, w in ir.writes_of(s_):
+                acc_ap = ir.ap(lv)
+    if not cnt_ap or not acc_ap:
+        raise AnalysisBroken("process_data: cannot identify the frame counter / accumulator pointer")
+    acc_names = (acc_ap, acc_ap.lstrip("*") + "[0]")
+    cnt_names = (cnt_ap, cnt_ap.lstrip("*") + "[0]")
     for b in tests:
         tsucc = [s["to"] for s in b.succs if s.get("label") == "true" and s.get("to") is not None]
         loop = paths.innermost_loop(f, b.id)
@@ -155,10 +169,10 @@ def window_rules(prog, res, f):
              "the accumulated sum is not divided by the number of frames"),
             ("channel_write_unmap(out)", lambda s: any(c.get("fn") == "channel_write_unmap" for c in ir.calls_in(s)),
              "the averaged frame is never committed"),
-            ("*accumulator = 0", lambda s: any(ir.ap(lv) in ("*accumulator", "accumulator[0]") and ir.is_const(rhs, 0)
+            ("*accumulator = 0", lambda s: any(ir.ap(lv) in acc_names and ir.is_const(rhs, 0)
                                                for lv, op, rhs, w in ir.writes_of(s)),
              "the accumulator is not released: the next window adds into the emitted frame"),
-            ("*frame_count = 0", lambda s: any(ir.ap(lv) in ("*frame_count", "frame_count[0]") and ir.is_const(rhs, 0)
+            ("*frame_count = 0", lambda s: any(ir.ap(lv) in cnt_names and ir.is_const(rhs, 0)
                                                for lv, op, rhs, w in ir.writes_of(s)),
              "the frame counter is not reset: later windows are shorter / scaled wrongly"),
         ]
@@ -192,13 +206,13 @@ def window_rules(prog, res, f):
                 arg = c["args"][1]
                 ok = False
                 for y in ir.walk(arg):
-                    if y.get("k") == "bin" and y["op"] == "/" and any(ir.ap(z) in ("*frame_count",) for z in ir.walk(y["r"])):
+                    if y.get("k") == "bin" and y["op"] == "/" and any(ir.ap(z) in cnt_names for z in ir.walk(y["r"])):
                         ok = True
                     if y.get("k") == "ref":
                         rs = f.resolve_ref(y)
                         if rs is not None:
                             for z in ir.walk(rs):
-                                if z.get("k") == "bin" and z["op"] == "/" and any(ir.ap(q) == "*frame_count" for q in ir.walk(z["r"])):
+                                if z.get("k") == "bin" and z["op"] == "/" and any(ir.ap(q) in cnt_names for q in ir.walk(z["r"])):
                                     ok = True
                 inst = "%s: normalize scales by 1 / *frame_count" % f.name
                 if ok:
@@ -211,7 +225,7 @@ def window_rules(prog, res, f):
     for bid, i, s in acc_calls:
         def counts(ss):
             for lv, op, rhs, w in ir.writes_of(ss):
-                if ir.ap(lv) == "*frame_count" and (op in ("++", "+=") or ir.is_const(rhs, 1)):
+                if ir.ap(lv) in cnt_names and (op in ("++", "+=") or ir.is_const(rhs, 1)):
                     return True
             return False
         # on the success edge of the CHECK(accumulate(..)) the counter is updated
@@ -235,7 +249,9 @@ def window_rules(prog, res, f):
             if x.get("k") == "init" and x.get("r") == "VideoFrame":
                 flds = {e["f"]: e["v"] for e in x.get("elts", []) if "f" in e}
                 fid = flds.get("frame_id")
-                ok = isinstance(fid, dict) and ir.ap(fid) == "in->frame_id"
+                ok = isinstance(fid, dict) and (ir.ap(fid) or "").endswith("->frame_id") and \
+                    ir.strip(fid["b"]).get("k") == "var" and ir.strip(fid["b"]).get("r") == "VideoFrame" and \
+                    (ir.ap(fid["b"]) or "") not in acc_names
                 inst = "%s: emitted frame_id is the window's first frame's" % f.name
                 if ok:
                     res.oblige(R, inst, True, "in->frame_id at the mapping of the accumulator", f.loc(s_))
